@@ -2,7 +2,7 @@
    fails to compile if Props/C12.v is weakened, renamed or given other hypotheses. *)
 From Coq Require Import SpecFloat.
 Require Import Base Value Float PrintOptions ParseOptions Reader Scan Num Parser DatumProofs DepthProofs.
-Require Import ReaderProofs RoundtripProofs.
+Require Import ReaderProofs TokenProofs RoundtripProofs TriviaProofs.
 Require Import Lexpr.Props.C12.
 
 Check (C12_four_ways :
@@ -20,6 +20,34 @@ Check (C12_concat_partial :
   Forall (fun v => rt_ok alpha v /\ N.of_nat (rdepth v) < D) vs -> D <= 128 ->
   (length (seq_txt ryu vs) + 16 + 1 <= fuel)%nat -> (length vs < n)%nat -> at_bytes r (seq_txt ryu vs) ->
   iterate_values default_ro alpha fast std_parse fuel n (mkp r D) = map (fun v => POk v) vs).
+
+Check (C12_trivia_sequence_partial :
+  forall ryu alpha fast std_parse ls first post fuel n r D,
+  seq_ok ryu alpha first D ls -> trivia_eof post -> D <= 128 ->
+  (length (seq_ltxt ryu ls post) + 16 + 2 <= fuel)%nat -> (length ls < n)%nat -> at_bytes r (seq_ltxt ryu ls post) ->
+  iterate_values default_ro alpha fast std_parse fuel n (mkp r D) = map (fun pl => POk (lval (snd pl))) ls).
+
+Check (C12_trivia_value_partial :
+  forall ryu alpha fast std_parse k l pre post,
+  trivia pre -> trivia_eof post -> lok ryu alpha l -> (ldepth l <= 127)%nat ->
+  from_trait default_ro alpha fast std_parse k (bytes_events (pre ++ ltxt ryu l ++ post)) = POk (lval l)).
+
+Check (C12_trivia_insensitive_partial :
+  forall ryu alpha fast std_parse k l1 l2 pre1 post1 pre2 post2,
+  trivia pre1 -> trivia_eof post1 -> lok ryu alpha l1 -> (ldepth l1 <= 127)%nat ->
+  trivia pre2 -> trivia_eof post2 -> lok ryu alpha l2 -> (ldepth l2 <= 127)%nat -> lval l1 = lval l2 ->
+  from_trait default_ro alpha fast std_parse k (bytes_events (pre1 ++ ltxt ryu l1 ++ post1)) =
+  from_trait default_ro alpha fast std_parse k (bytes_events (pre2 ++ ltxt ryu l2 ++ post2))).
+
+Check (C12_layout_of_printed :
+  forall ryu v, ltxt ryu (LAtom v) = TextProofs.txt ryu v /\ lval (LAtom v) = v).
+
+Check (C12_trivia_nonvacuous :
+  trivia [9] /\ trivia_eof (s2b " ; end") /\ lok (fun _ => []) (fun _ => true) c12_layout /\ (ldepth c12_layout <= 127)%nat /\
+  lval c12_layout = c12_value /\
+  ltxt (fun _ => []) c12_layout = s2b "( a ;c" ++ [10; 9] ++ s2b "(b . " ++ [13] ++ s2b "c" ++ [12] ++ s2b ")(d) #(1" ++ [10] ++ s2b "2 ) )" /\
+  forall k, from_trait default_ro (fun _ => true) true dec_to_f64 k
+              (bytes_events ([9] ++ ltxt (fun _ => []) c12_layout ++ s2b " ; end")) = POk c12_value).
 
 Check (C12_closer_consumed :
   let inp := bytes_events (s2b "1 2 ) 3") in
